@@ -45,6 +45,17 @@ def run(ctx) -> None:
         "(inotify_rm_watch or pruning of the wd->path map) on the reader/emitter path",
         floor=1,
     )
+    RB = ctx.rule("C03/paths-from-correct-bookkeeping", "event paths are wd->path lookups: a watch filed under a wrong or stale path makes the observer report changes under a path that never existed (instances shared with C02: re-key of a renamed directory and its watched descendants under a separator-terminated prefix test, pruning only the dying descriptor's entry)", floor=5)
+    from .c02 import check_rows
+
+    class _Only:
+        """forward only the two rows that decide under which path events are reported"""
+
+    _sink = ctx.rule("C03/_shared-not-owned", "(rows of the shared bookkeeping contract that C03 does not own)", floor=0)
+    n0 = len(ctx.instances)
+    check_rows(ctx, _sink, RB, _sink, RB, _sink, _sink)
+    ctx.instances[n0:] = [i for i in ctx.instances[n0:] if i.rule != _sink]
+    del ctx.rules[_sink], ctx.floors[_sink]
     ctx.assumptions += [
         "an inotify record carries exactly one event bit besides IN_ISDIR (bit constants are distinct powers of two: checked)",
         "the kernel delivers what inotify(7) documents",
